@@ -176,7 +176,7 @@ def run(ctx):
                 "jarSet_exit_ok_iff", "loopNoFound_accepts_every_unpublished_kid",
                 "fact_caseVariant_loop", "fact_cvSep", "structLoop_none_iff", "structLoop_sound", "caseVariant_verdict_order_independent",
                 "clean_document_decodes_exact_names", "vcJsonLdDocS_refines", "accept_vcJsonLdDocS", "exact_compare_misses_case_variant",
-                "accepted_jsonld_reads_what_was_signed"]
+                "accepted_jsonld_reads_what_was_signed", "fact_ldProof_alg_source", "header_alg_rule_accepts_rs256", "ldProof_rsa_key_only_ps256"]
     for r in required:
         if not any(t.endswith("Props." + r) for t in thms):
             ctx.oblige("thm-present:" + r, False, "theorem missing or its module does not build")
@@ -364,6 +364,14 @@ def run(ctx):
             if not v and c == "vcldfold" and line == "accept" and (op.get("reads_differ") or op.get("conflated")):
                 v = ("unsigned-member-read", "a JSON-LD document was accepted in which an object holds two members that encoding/json conflates (names equal under Unicode "
                      f"simple case folding, e.g. U+017F / U+212A); the node reads another value than the signed one: {bool(op.get('reads_differ'))}")
+            # JSON-LD proof: the signature was really MADE with `signedalg` (hand-built by the harness). An accepted one must be made with an
+            # algorithm on the shared allow-list AND with the one the resolved key determines (crypto.SignatureAlgorithm), never one a header names
+            if not v and c == "ldproof" and line == "accept" and op.get("signedalg"):
+                sa = op["signedalg"]
+                if sa not in facts.get("supportedAlgs", []):
+                    v = ("alg-not-allowed", f"a JSON-LD proof whose signature was made with {sa!r} (header alg {op.get('halg')!r}) was accepted: {sa} is not on the allow-list {facts.get('supportedAlgs')}")
+                elif sa != op.get("v", {}).get("keyalg"):
+                    v = ("alg-not-of-key", f"a JSON-LD proof made with {sa!r} was accepted although the key determines {op.get('v', {}).get('keyalg')!r}: the algorithm came from the proof's own header")
             if not v and c == "vcld" and line == "accept" and op.get("v", {}).get("nproofs") != 1:
                 v = ("proof-set", f"a JSON-LD document with {op['v'].get('nproofs')} proofs was accepted (exactly one signature is required)")
             # the verification key is what the protocol's key source returns NOW: an accept although the (current) lookup failed means a
